@@ -8,9 +8,13 @@ hooks = [l.split()[0] for l in HOOK_COMMITS if 'verif hook' in l]
 
 CLAIMED = {
  'C01': dict(
-   text="Kernel obligations only, each proved for all inputs of the function it sits on: (1) the insertion-point codec - CachedPointDataExtractor.Extract inverts the `path#id` / `path:index` encoding produced by the executor (string theory; the id is everything after the first '#'); (2) the stitching kernels FindInsertionPoints (row-shape invariants, all indices in range), ExtractValueModifyingSource, mergeMaps / mergeSlices / getLeftEntityPosition and DepthExecutorManager.merge are panic-free for arbitrary decoded JSON and keep the stated shapes; (3) planner.extractSelectionSet folds a field owned by another service into an existing child step only when that step has the same URL and the comparison of insertion points that allowed it returned true (obligation on the folding call, over a ghost record of the comparison call); (4) the name predicates of package common. NOT decided: equality of the stitched `data` with what a single server would return (needs GraphQL execution semantics as a specification), the planner's split as a whole, formatting, scrubbing (see C13 finding B19).",
+   text="Kernel obligations only, each proved for all inputs of the function it sits on: (1) the insertion-point codec - CachedPointDataExtractor.Extract inverts the `path#id` / `path:index` encoding produced by the executor (string theory; the id is everything after the first '#'); (2) the stitching kernels FindInsertionPoints (row-shape invariants, all indices in range), ExtractValueModifyingSource, mergeMaps / mergeSlices / getLeftEntityPosition and DepthExecutorManager.merge are panic-free for arbitrary decoded JSON and keep the stated shapes; (3) planner.extractSelectionSet folds a field owned by another service into an existing child step only when that step has the same URL and the comparison of insertion points that allowed it returned true (obligation on the folding call, over a ghost record of the comparison call); (4) selectionSetToFieldsRepresentation keeps every response key (alias, or name without alias) the client selected when an interface selection is rewritten per implementation; (5) the name predicates of package common. NOT decided: equality of the stitched `data` with what a single server would return (needs GraphQL execution semantics as a specification), the planner's split as a whole, formatting, scrubbing (see C13 finding B19).",
    note="Assumed: strconv.ParseInt / strings.SplitN library models; decoded JSON values are well-formed (jsonval); extractSelectionSet's callees without contract are abstracted by their inferred write sets, so only what is stated about the folding decision is proved; the routing table is well-formed (proved in C04) and schema maps hold non-nil definitions.",
    ref="DESIGN.md §0.3 C01", technique="contract-based deductive verification (codec postconditions in the theory of strings, loop invariants over row slices, call-site obligation with ghost call record, z3+cvc5)"),
+ 'C15': dict(
+   text="One kernel only: parseTypeRef decodes the __Type{kind name ofType} chain of an introspection answer back into the type reference it encodes, for every nesting depth of list / non-null wrappers (inductive proof through the function's own contract: TString(result) == RefString(response) for every spec-compliant chain). NOT decided: parseType, parseInputField, parseArgList, default values, directives, deprecations, descriptions, possible types, the JSON decoding of the answer and the final format + LoadSchema step - that is, most of the property.",
+   note="Assumed: the encoding itself (RefString, WfRef) is axiomatised from the GraphQL specification; the four ast.Type constructors of gqlparser and (*ast.Type).String as extern contracts; the chain objects are not mutated during the call.",
+   ref="DESIGN.md §0.3 C15", technique="contract-based deductive verification (recursive function against an axiomatised specification function, strings theory, z3+cvc5)"),
  'C03': dict(
    text="Deductive proof of the union shape of the pairwise merge where it is a per-call property: mergeTypes (no error) yields exactly keys(a) ∪ non-builtin keys(b), all definitions non-nil; mergeRootObjects keeps every root field of the schema being merged in (prefix, by identity) and every non-builtin root field of the accumulated side (by name) - which is where the order-dependent loss of Query.node was found and fixed; mergeCustomObjectFields keeps every field name of the new side and, unless the result is a complete copy, of the accumulated side (where the loss of a one-sided `id` field was found and fixed); mergeCustomObjects keeps kind and name, every interface name, union member, enum value name and applied-directive name of both sides (lo.Uniq / lo.UniqBy models, the key of UniqBy taken from the proved contract of the key closure); mergeDirectives keeps every directive definition of every service and adds none; the routing side is C04. The lifting of these per-definition facts through mergeTypes to whole schemas, the Implements / PossibleTypes maps and the final FormatSchema + LoadSchema round trip are not under contract.",
    note="Assumed: modifies clauses marked assumed (the merge helpers do not change the visible contents of the input schemas); gqlparser ForName model; AST non-nil invariants.",
@@ -20,7 +24,7 @@ CLAIMED = {
    note="Assumed: (*ast.Type).String / Name and (*ast.Value).String as ghost functions; field names of one type are unique (gqlparser's schema validation); modifies clauses marked assumed; panics inside gqlparser are out of scope.",
    ref="DESIGN.md §5 C05", technique="contract-based deductive verification (error-path postconditions with loop invariants over map iteration, z3+cvc5)"),
  'C04': dict(
-   text="Deductive proof of the functional contracts of the routing table: TypeURLMap.Set/Get/SetTypeIsImplementsNode/GetTypeIsImplementsNode (exact effect plus frame over all other (type, field) pairs and flags), isNodeField against the property's definition of the Relay entry point (name node, one argument id: ID!, nullable Node), SetFromSchema (every non-builtin, non-id, non-entry-point field of every non-builtin object of the schema is routed to that service; types not declared as objects by the schema are untouched; every route is either unchanged or now points to this service; IsImplementsNode iff some processed schema lists Node) and the fold in ExtendMergerFunc.Merge (every declared field of every input has a route; every route names some input's URL), for arbitrary schemas and any number of services. 'Exactly the one service' for root fields additionally needs C05's overlap rejection (not claimed).",
+   text="Deductive proof of the functional contracts of the routing table: TypeURLMap.Set/Get/SetTypeIsImplementsNode/GetTypeIsImplementsNode (exact effect plus frame over all other (type, field) pairs and flags), isNodeField against the property's definition of the Relay entry point (name node, one argument id: ID!, nullable Node), SetFromSchema (every non-builtin, non-id, non-entry-point field of every non-builtin object of the schema is routed to that service; types not declared as objects by the schema are untouched; every route is either unchanged or now points to this service; IsImplementsNode iff some processed schema lists Node) and the fold in ExtendMergerFunc.Merge (every declared field of every input has a route; every route names some input's URL), for arbitrary schemas and any number of services. 'Exactly the one service' for root fields rests on C05's overlap rejection in mergeRootObjects, and mergeTypes is proved never to send Query, Mutation or Subscription through the merge of shared value types (call-site obligation).",
    note="Assumed: mergeTypes and the schema re-load do not modify the input schemas (modifies-assumed); AST element/field non-nil invariants (validator post-condition); (*ast.Type).Name as ghost TName; map iteration models every order.",
    ref="DESIGN.md §5 C04", technique="contract-based deductive verification (quantified map-of-map invariants, @using hypothesis selection, z3+cvc5)"),
  'C14': dict(
@@ -28,7 +32,7 @@ CLAIMED = {
    note="Assumed: SHA-1 and the selection-set formatter are injective on what they read; the frame analyses are conservative syntactic dataflows over go/ssa (not SMT); the inner planner does not share the cache; one sequential thread's view of the mutex.",
    ref="DESIGN.md §5 C14", technique="contract-based deductive verification (reads/modifies frame obligations by SSA dataflow, ghost lock state obligations by z3)"),
  'C06': dict(
-   text="Deductive proof of the links of the chain that are per-call properties: (1) the operation keyword of a step's query string is the client's operation type exactly for root steps (empty insertion point) and `query` for follow-up steps, pinned at the point where the query string is formatted (SetComputedValues, formatter contracts); (2) executeRequests issues at most one Queryer.Query per service group, a request that is not a de-duplicable follow-up lookup (in particular every root request) gets the private key itoa(index) - never a shared `!`-key - and is recorded exactly in its own entry; (3) MultiOpQueryer.Query partitions its inputs into disjoint chunks that cover them (C11 proof), so each request is in exactly one HTTP call. (4) SetComputedValues stores a formatter only into its own step (direct-store frame), so the root's operation keyword and name cannot be handed to a follow-up step. Routing of root fields to their owner (routeSelectionSet) and 'child steps have non-empty insertion points' (extractSelectionSet) are not under contract; plan caching is covered by C14.",
+   text="Deductive proof of the links of the chain that are per-call properties: (1) the operation keyword of a step's query string is the client's operation type exactly for root steps (empty insertion point) and `query` for follow-up steps, pinned at the point where the query string is formatted (SetComputedValues, formatter contracts); (2) executeRequests issues at most one Queryer.Query per service group, a request that is not a de-duplicable follow-up lookup (in particular every root request) gets the private key itoa(index) - never a shared `!`-key - and is recorded exactly in its own entry; (3) the manager's depth loop never runs a depth after a failed one (loop invariant: the requests at hand would be sent a second time); MultiOpQueryer.Query partitions its inputs into disjoint chunks that cover them (C11 proof), so each request is in exactly one HTTP call. (4) SetComputedValues stores a formatter only into its own step (direct-store frame), so the root's operation keyword and name cannot be handed to a follow-up step. Routing of root fields to their owner (routeSelectionSet) and 'child steps have non-empty insertion points' (extractSelectionSet) are not under contract; plan caching is covered by C14.",
    note="Assumed: AsyncMapReduce fold contract; planner functions below SetComputedValues (routeSelectionSet, extractSelectionSet) are not verified; lo.PartitionBy groups by URL; modifies clauses marked assumed in the evidence.",
    ref="DESIGN.md §5 C06", technique="contract-based deductive verification (loop-entry assertions on formatter state, ghost call counter, key-shape postconditions, z3+cvc5)"),
  'C13': dict(
@@ -36,7 +40,7 @@ CLAIMED = {
    note="Assumed: distinct map entries do not share the objects reached through their values; bag accumulators are consumed as multisets; the annotated loops (see evidence map_range_loops[].annotation); ScrubFields.Clean across paths is undecided (not claimed).",
    ref="DESIGN.md §5 C13", technique="contract-based verification: iteration contracts (parallel-loop footprint argument) by SSA dataflow, uniqueness of early exits by SMT (z3)"),
  'C07': dict(
-   text="Deductive proof of no-panic (nil, bounds, type assertion, nil-map, division) obligations generated for every instruction of the request-decoding path (Parse, parseRequest, injectFile, IsBatchMode), the handler (queryHandler, its per-operation closure and reducer, Emit, emitError, getQueryers, parseIntrospectionQuery), error formatting and the plan post-processing, for arbitrary request bodies / multipart maps; plus ghost-state postconditions: exactly one status line per request, 422 iff Parse fails, 200 otherwise, invalid operations answered with data:null and >=1 error. Termination (hangs) and panics inside gqlparser / encoding/json / net/http are not decided.",
+   text="Deductive proof of no-panic (nil, bounds, type assertion, nil-map, division) obligations generated for every instruction of the request-decoding path (Parse, parseRequest, injectFile, IsBatchMode), the handler (queryHandler, its per-operation closure and reducer, Emit, emitError, getQueryers, parseIntrospectionQuery), error formatting, the plan post-processing and the introspection resolvers that run inside the per-operation closure (ResolveIntrospectionFields, resolveSchema / Type / Field / Directive / InputValue / EnumValue, for arbitrary selection sets and client variables), for arbitrary request bodies / multipart maps; plus ghost-state postconditions: exactly one status line per request, 422 iff Parse fails, 200 otherwise, invalid operations answered with data:null and >=1 error. Termination (hangs) and panics inside gqlparser / encoding/json / net/http are not decided.",
    note="Assumed: library contracts listed in the evidence (LoadQuery, FormFile, json.Unmarshal, strings.*), callbacks (QueryerFactory) do not modify gateway state, modifies clauses marked assumed; planner internals below SequentialPlanner.Plan and the executor below Executor.Execute are covered only as far as their own contracts (see evidence 'functions_under_contract').",
    ref="DESIGN.md §5 C07", technique="contract-based deductive verification (auto-generated safety obligations + ghost status contracts over go/ssa, z3+cvc5)"),
  'C08': dict(
